@@ -6,6 +6,62 @@
 import Oryx.Proofs.WsRead
 namespace Oryx.Props.C14
 open Oryx Oryx.WsRead Oryx.Gen.Websocket
+open Oryx.Spec.Ws (Frame Role serialise serialiseAll recv End)
+
+/-- The role of the endpoint that runs the reader. -/
+abbrev role (isServer : Bool) : Role := roleOf isServer
+
+/-- **C14_refines.** For EVERY sequence of well-formed frames a peer may send (any opcodes, FIN/RSV
+bits, mask bits and keys, length forms — non-minimal ones included — and announced lengths up to
+2^64−1), both roles, deflate negotiated or not, any read limit: reading the wire image of the
+sequence with `ReadMessage` until it fails
+* delivers exactly the messages the conformant receiver `Spec.Ws.recv` delivers up to its first
+  violation (type, compressed flag, payload), and writes back exactly its replies (a pong with the
+  same payload for every ping, the close echo, Close 1002 / 1009);
+* ends with the error that corresponds to how the spec receiver stops — protocol error for a
+  violation (then a Close 1002 frame is among the replies), the limit error above the cap (the
+  configured limit, or 2^63−1), the peer's close code and reason, unexpected EOF when the frames
+  simply end;
+* and that error is sticky: every later `ReadMessage` returns it, reads nothing, writes nothing. -/
+theorem C14_refines (isServer deflate : Bool) (L : Int) (hL0 : 0 ≤ L) (hL1 : L < 2 ^ 63)
+    (fs : List Frame) (hwf : ∀ f ∈ fs, f.WF) :
+    ∃ t, session (init isServer deflate L (serialiseAll fs)) = some t ∧
+      t.msgs = (recv (role isServer) deflate (capOf L) fs).msgs.map conv ∧
+      t.final.replies = (recv (role isServer) deflate (capOf L) fs).replies ∧
+      EndErr (recv (role isServer) deflate (capOf L) fs).fin t.err ∧
+      ((recv (role isServer) deflate (capOf L) fs).fin = .fail 1002 →
+          t.err = .proto ∧ (8, be 2 1002) ∈ t.final.replies) ∧
+      readMessage t.final = .fail t.err { t.final with readLength := 0 } := by
+  have hb : Bnd (init isServer deflate L (serialiseAll fs)) :=
+    ⟨rfl, rfl, rfl, by show (0 : Int) ≤ 0; decide, by show (0 : Int) < 2 ^ 63; decide, hL0, hL1⟩
+  obtain ⟨t, t1, t2, t3, t4, t5⟩ := sessionLoop_frames fs.length fs (Nat.le_refl _) hwf
+    (init isServer deflate L (serialiseAll fs)) _ [] hb rfl rfl (Nat.le_refl _)
+  have e0 : specRecv (init isServer deflate L (serialiseAll fs)) none fs = recv (role isServer) deflate (capOf L) fs := rfl
+  have e1 : (init isServer deflate L (serialiseAll fs)).replies = [] := rfl
+  rw [e0] at t2 t3 t4
+  rw [e1, List.nil_append] at t3
+  rw [List.nil_append] at t2
+  refine ⟨t, t1, t2, t3, t4, ?_, readMessage_sticky _ _ t5⟩
+  intro hf
+  have hrep := recvFrom_fail_reply (roleOf isServer) deflate (capOf L) fs none hf
+  refine ⟨?_, ?_⟩
+  · have h4 : EndErr (recv (role isServer) deflate (capOf L) fs).fin t.err := t4
+    rw [hf] at h4
+    rcases h4 with ⟨_, h⟩ | ⟨h, _⟩
+    · exact h
+    · cases h
+  · rw [t3]; exact hrep
+
+/-- **ping_pong.** A ping that violates nothing is consumed and answered with a pong carrying the same
+payload (unmasked application data), whatever the state of an open fragmented message; a pong is
+consumed silently. -/
+theorem ping_pong (s : RState) (f : Frame) (rest : Bytes) (hwf : f.WF) (hb : Bnd s)
+    (hin : s.input = serialise f ++ rest) (hv : violOf s f = false) (hop : f.opcode = 9 ∨ f.opcode = 10) :
+    ∃ s', advanceFrame s = .ok f.opcode s' ∧ s'.input = rest ∧
+      s'.replies = (if f.opcode = 9 then s.replies ++ [(10, f.payload)] else s.replies) ∧
+      s'.readFinal = s.readFinal ∧ s'.readLength = s.readLength := by
+  obtain ⟨s', h1, h2, h3, _, _, h6, h7⟩ := step_pingpong s f rest hwf hb hin hv hop
+  exact ⟨s', h1, h2, h3, h6, h7⟩
 
 /-- **len64_top_bit.** A frame whose 64-bit length field has the most significant bit set is never
 accepted as a frame: for every state (no frame pending), every first header byte, every mask bit,
@@ -64,6 +120,26 @@ example : (session (init false false 10 f14bStream)).map (fun t => (t.msgs.lengt
 example : (session (init false false 10 f14bStream)).map (fun t => t.partialLen) = some 10 := by decide +kernel
 
 /-! ### non-vacuity -/
+
+-- a fragmented text message with a ping in the middle, then a frame with a reserved opcode: well-formed
+-- frames; the spec receiver delivers "abc", answers the ping, fails with 1002 — and so does the model.
+def exFrames : List Frame :=
+  [ { fin := false, rsv1 := false, rsv2 := false, rsv3 := false, opcode := 1, masked := false, key := [],
+      lenForm := 0, len := 2, payload := [97, 98] },
+    { fin := true, rsv1 := false, rsv2 := false, rsv3 := false, opcode := 9, masked := false, key := [],
+      lenForm := 0, len := 1, payload := [7] },
+    { fin := true, rsv1 := false, rsv2 := false, rsv3 := false, opcode := 0, masked := false, key := [],
+      lenForm := 1, len := 1, payload := [99] },
+    { fin := true, rsv1 := false, rsv2 := false, rsv3 := false, opcode := 3, masked := false, key := [],
+      lenForm := 0, len := 0, payload := [] } ]
+
+example : ∀ f ∈ exFrames, f.WF := by decide
+example : recv (role false) false (capOf 0) exFrames =
+    { msgs := [{ ty := 1, compressed := false, data := [97, 98, 99] }],
+      replies := [(10, [7]), (8, [0x03, 0xea])], fin := .fail 1002 } := by decide +kernel
+example : (session (init false false 0 (serialiseAll exFrames))).map (fun t => (t.msgs, t.final.replies, t.err)) =
+    some ([{ ty := 1, compressed := false, data := [97, 98, 99] }], [(10, [7]), (8, [0x03, 0xea])], .proto) := by
+  decide +kernel
 
 -- a state and stream satisfying the hypotheses of `len64_top_bit`
 example : (decodeHdr 0x01 0x7f).len7 = 127 := by decide
